@@ -672,7 +672,10 @@ fn choose_faults(g: &mut Gen, frng: &mut Rng, mode: &str) -> Env {
     if kinds.is_empty() {
         kinds.push("bare");
     }
-    let panics_allowed = mode == "wild" || mode == "map";
+    // Panics in user code are part of every mode's world: in wild / map mode they are a main fault kind;
+    // in strict mode (C02 / C03) a few runs end in a caught panic so that later parses on the same
+    // thread - first of all this run's own fault-free re-parse - see a thread that has unwound before.
+    let (panic_one, panic_rate) = if mode == "wild" || mode == "map" { (25, 20) } else { (6, 5) };
     let all_items = g.all_items.clone();
     let mk = |frng: &mut Rng, kinds: &[&'static str], own: bool| -> Fault {
         let sel = |frng: &mut Rng| -> SpanSel {
@@ -722,7 +725,7 @@ fn choose_faults(g: &mut Gen, frng: &mut Rng, mode: &str) -> Env {
         if !pool.is_empty() {
             let key = frng.pick(&pool).clone();
             let own = matches!(key, Key::Item(_));
-            if panics_allowed && frng.pct(25) {
+            if frng.pct(panic_one) {
                 env.faults.push((key, Fault::Panic));
             } else {
                 env.faults.push((key, mk(frng, &kinds, own)));
@@ -740,7 +743,7 @@ fn choose_faults(g: &mut Gen, frng: &mut Rng, mode: &str) -> Env {
                 env.faults.push((key, mk(frng, &kinds, false)));
             }
         }
-        if panics_allowed && frng.pct(20) {
+        if frng.pct(panic_rate) {
             // at most one panic per run: the first one ends it
             let mut pool: Vec<Key> = g.probe_items.iter().map(|(id, _)| Key::Item(*id)).collect();
             pool.extend(infallible_sites.iter().cloned());
